@@ -69,6 +69,8 @@ func c07Gen(r *rand.Rand, tier string) []Case {
 	out = append(out, Case{"deploy",
 		"gas ? ? 0 ? # kind=transfer pricing=dynamic-word limit=21000", "gas ? ? 0 ? # kind=set pricing=dynamic-word limit=100000",
 		"gas ? ? 500000000000000000 ? # kind=clear pricing=dynamic-word limit=60000", "gas ? ? 0 ? # kind=revert pricing=dynamic-word limit=50000",
+		"gas ? ? 0 ? # kind=set pricing=dynamic limit=100000 market=notyet", "gas ? ? 0 ? # kind=transfer pricing=dynamic limit=50000 market=notyet",
+		"gas ? ? 500000000000000000 ? # kind=clear pricing=dynamic limit=90000 market=notyet", "gas ? ? 0 ? # kind=set pricing=legacy limit=100000 market=notyet",
 		"vfee 2 21000 0 18446744073709551615 18446744073709551615 1000000000", "vfee 2 21000 0 18446744073709551000 18446744073709551615 875000000",
 		"efloor 1000000000000000000 2 21000 0 18446744073709551615 18446744073709551615 1000000000",
 		"efloor 20000000000000000000000000000000000000 2 21000 0 18446744073709551615 18446744073709551615 1000000000"})
@@ -82,7 +84,11 @@ func c07Gen(r *rand.Rand, tier string) []Case {
 			if kind == "oog" {
 				limit = 21000 + r.Intn(2500)
 			}
-			c = append(c, fmt.Sprintf("gas ? ? %s ? # kind=%s pricing=%s limit=%d", pick(r, mults), kind, pick(r, []string{"legacy", "dynamic", "dynamic-capped", "legacy", "dynamic", "dynamic-capped", "dynamic-word"}), limit))
+			mk := ""
+			if r.Intn(5) == 0 {
+				mk = " market=notyet"
+			}
+			c = append(c, fmt.Sprintf("gas ? ? %s ? # kind=%s pricing=%s limit=%d%s", pick(r, mults), kind, pick(r, []string{"legacy", "dynamic", "dynamic-capped", "legacy", "dynamic", "dynamic-capped", "dynamic-word"}), limit, mk))
 		}
 		// decorator-level boundary tuples
 		for j := 0; j < 12; j++ {
@@ -285,6 +291,17 @@ func c07Exec(c Case) (outs []string, fails []Failure, tags []string) {
 				}
 				p := app.FeeMarketKeeper.GetParams(ctx)
 				p.MinGasMultiplier = mult
+				if kv["market"] == "notyet" {
+					// the fee market is scheduled but not yet in force (EnableHeight ahead): the ante handler and the
+					// execution must still agree on one price
+					p.EnableHeight = ctx.BlockHeight() + 1_000
+					tags = append(tags, "fee-market-not-yet-enabled")
+					defer func() {
+						q := app.FeeMarketKeeper.GetParams(nw.GetContext())
+						q.EnableHeight = 0
+						_ = app.FeeMarketKeeper.SetParams(nw.GetContext(), q)
+					}()
+				}
 				_ = app.FeeMarketKeeper.SetParams(ctx, p)
 				key := kr.GetKey(sender)
 				// ---- measure the raw EVM consumption (after refunds) on a branch with the multiplier at 0 ----
